@@ -54,8 +54,22 @@ def check_case(case):
     res.classes = [f"len{min(len(plan), 8)}", "allow" if allow else "strict"]
     res.key = json.dumps([dom, case["init"], plan, allow], sort_keys=True)
 
+    # the exporter object is used for another problem of the same domain first (more objects, same plan
+    # lines): a trajectory is a function of (domain, problem, plan), not of what the exporter did before
+    warm = None
+    if case.get("warm", True):
+        extra = [[f"x{i}", t] for i, (t, _) in enumerate(dom["types"][:3])] if dom.get("typed", True) else [["x0", "object"]]
+        okw, warm = lib_call(parse_problem_text, problem_text(dom, objects + extra, init, name="other"), domain)
+        if not okw:
+            warm = None
+
     def run():
         exporter = TrajectoryExporter(domain, allow_invalid_actions=allow)
+        if warm is not None:
+            try:
+                exporter.parse_plan(warm, action_sequence=list(lines))
+            except Exception:  # noqa: whatever the warm-up does is not under test
+                pass
         triplets = exporter.parse_plan(problem, action_sequence=list(lines))
         out = []
         for t in triplets:
@@ -65,7 +79,7 @@ def check_case(case):
     okr, got = lib_call(run)
     if not okr:
         # an exception is acceptable only if it stems from a step whose outcome is undefined
-        if any(r["why"] in ("Undefined", "Conflict") for r in ref) or (allow and any(r["applicable"] is False for r in ref)):
+        if any(r["why"] in ("Undefined", "Conflict", "Magnitude") for r in ref) or (allow and any(r["applicable"] is False for r in ref)):
             res.skipped = "undefined-step-raised"
             return res
         res.bad(f"C04/parse_plan/exception:{got.key}", {**info, "error": repr(got)})
@@ -90,7 +104,7 @@ def check_case(case):
         if i > 0 and not pddl.states_equal(trip[i - 1][2], pre):
             res.bad("C04/chain", {**info, "step": i, "diff": pddl.state_diff(trip[i - 1][2], pre)})
             break
-        if not trusted or r["why"] in ("after-undefined", "Undefined", "Ambiguous", "Conflict"):
+        if not trusted or r["why"] in ("after-undefined", "Undefined", "Ambiguous", "Conflict", "Magnitude"):
             trusted = False
             continue
         if not pddl.states_equal(r["pre"], pre):
